@@ -2506,7 +2506,11 @@ class RlWriter:
             and self.table_nesting == 1
         ):
             elements.append(CondPageBreak(pdfstyles.MIN_TABLE_SPACE))
-        elements.extend(self.renderCaption(table))
+        caption = self.renderCaption(table)  # takes the caption out of the table
+        if caption:
+            # a nested table comes here twice (size calculation, then layout)
+            table.rendered_caption = caption
+        elements.extend(getattr(table, "rendered_caption", []))
         rltables.flip_dir(table, rtl=self.rtl)
         rltables.check_spans(table)
         table.num_cols = table.numcols
